@@ -75,16 +75,43 @@ StateIsLastCall == Len(h) > 0 =>
        \A i \in 1..(Len(obj.grid) - 1) : \E j \in 1..Len(obj.x) : obj.grid[i] < obj.x[j] /\ obj.x[j] < obj.grid[i + 1]
 
 \* ---- vector: instance 1 = the object with its whole history, instance 2 = fresh object ---------
-Step(c, g) == [b |-> c.b, api |-> IF c.b = 0 THEN "e" ELSE "i", op |-> c.op, d |-> 0, k |-> c.k, y |-> c.y, g |-> g]
-Steps == [i \in 1..Len(h) |-> Step(h[i], h[i].g)]
+(* Probe order is part of the history.  After call i the harness evaluates the object on the probe
+   points of the grid left by that call, in an order that depends on i:
+        i mod 3 = 1 : low outside points, then the quarter points rotated so that the LAST point
+                      evaluated is a quarter point in the middle of the grid
+        i mod 3 = 2 : quarter points ascending, then the outside points (last: far above the grid)
+        i mod 3 = 0 : the reverse of that (last: the first knot)
+   even i: CalculateDerivative on all points first, then Calculate; odd i the other way round; and
+   the FIRST point evaluated after call i >= 2 is the point evaluated LAST after call i-1 (the same
+   real number, now on whatever grid the new call installed).  Expectation unchanged: everything
+   observed after the last call equals a fresh object.                                            *)
+Rev(sq) == [j \in 1..Len(sq) |-> sq[Len(sq) + 1 - j]]
+Rot(sq, m) == [j \in 1..Len(sq) |-> sq[((j + m - 1) % Len(sq)) + 1]]
+Ord(i) == LET G == GridLeftBy(i)
+              qp == QuarterPoints(G)
+              op == OutsidePoints(G)
+          IN  IF i % 3 = 1 THEN op \o Rot(qp, Len(qp) \div 2)
+              ELSE IF i % 3 = 2 THEN qp \o op
+              ELSE Rev(qp \o op)
+LastPt(i) == Ord(i)[Len(Ord(i))]
+FirstKind(i) == IF i % 2 = 0 THEN 1 ELSE 0
+\* probe groups <<kind, r1, r2, ...>> of step i, in evaluation order
+PrOf(i) == << <<FirstKind(i)>> \o (IF i > 1 THEN <<LastPt(i - 1)>> ELSE <<>>) \o Ord(i),
+              <<1 - FirstKind(i)>> \o Ord(i) >>
+Step(c, g, pr) == [b |-> c.b, api |-> IF c.b = 0 THEN "e" ELSE "i", op |-> c.op, d |-> 0, k |-> c.k, y |-> c.y,
+                   g |-> g, pr |-> pr]
+Steps == [i \in 1..Len(h) |-> Step(h[i], h[i].g, PrOf(i))]
 Probe == QuarterPoints(obj.grid) \o OutsidePoints(obj.grid)
 Prev == h[Len(h) - 1]
 Clause == "history-independence:after-" \o (IF Prev.b = 0 THEN "natural" ELSE "periodic") \o "-" \o Prev.op
+Carried == LET n == Len(h) IN
+  Relation(Clause \o ":first-evaluation", 1,
+           <<Term(1, 1, FirstKind(n), LastPt(n - 1)), Term(-1, 2, FirstKind(n), LastPt(n - 1))>>)
 Vec == [fam |-> "history", data |-> <<[k |-> obj.x, y |-> obj.y]>>,
         inst |-> << [t |-> t, b |-> obj.bc, api |-> "e", op |-> obj.op, d |-> 1, g |-> obj.grid, steps |-> Steps],
                     [t |-> t, b |-> obj.bc, api |-> "i", op |-> obj.op, d |-> 1, g |-> obj.grid,
-                     steps |-> <<Step(LastCall, IF obj.op = "fit" THEN obj.grid ELSE <<>>)>>] >>,
+                     steps |-> <<Step(LastCall, IF obj.op = "fit" THEN obj.grid ELSE <<>>, <<>>)>>] >>,
         exact |-> <<>>,
-        rel |-> CompactRels(SameAt(Clause, 1, 2, Probe))]
+        rel |-> CompactRels(<<Carried>> \o SameAt(Clause, 1, 2, Probe))]
 Vector == (Emit /\ Len(h) >= 2) => PrintT(ToJson(Vec))
 =============================================================================
